@@ -83,6 +83,19 @@ def timing_histories(rng, thorough):
             oc["ts%d@origin.test" % i] = "K"
             sc += [("advance", 5000), ("answer", "fifo"), ("answer", "fifo"), ("answer", "fifo"), ("advance", 20000), ("answer", "fifo"), ("answer", "fifo"), ("answer", "fifo")]
             mk("O", ms, oc, sc, conc=(1, 1))
+        # an expired message, then a young one (it takes over the job slot of the expired one): its temporary failure stays temporary
+        for v in range(2):
+            i = len(hs)
+            dom = b"local.test" if v == 0 else b"remote.test"
+            a1, a2 = b"t%dold@%s" % (i, dom), b"t%dyoung@%s" % (i, dom)
+            oc = {a1.decode(): "Z" * 30, a2.decode(): "ZZK", "ts%d@origin.test" % i: "K"}
+            sc = [("inject", 0), ("answer", "fifo"), ("advance", 450)]
+            for _ in range(4):
+                sc += [("nextdue", 0), ("answer", "fifo")]
+            sc += [("inject", 1), ("answer", "fifo")]
+            for _ in range(4):
+                sc += [("nextdue", 0), ("answer", "fifo")]
+            mk("Y", [msg(i, 0, [a1]), msg(i, 1, [a2])], oc, sc, lifetime=400)
         # several messages deferred at staggered times on one channel, then every computed wake-up is taken in turn: the daemon
         # must sleep until the EARLIEST due time (its select time-out comes from the minimum of the retry queue) and serve that one
         for v in range(2):
@@ -173,7 +186,9 @@ def main():
     for r in runs:
         ck.count("hist" + str(r["h"]["id"]), nontrivial=True)
     ck.sample({"history": runs[0]["h"]["id"], "attempt_times": [(e["t"] - 100000000, e["n"], e["a"]) for e in runs[0]["ev"] if e["op"] == "delcmd"][:12]})
-    qsengine.report(ck, "C15", runs, tbad)
+    # in these histories every report is an honest K / Z / D: a recipient finished or bounced after a temporary failure that is
+    # not past the lifetime is a violation of the lifetime clause of this property
+    qsengine.report(ck, "C15", runs, tbad, accept=("C15", "C03:RecipientMarkedDoneWithoutSuccessOrFailureReport", "C14:BounceRecordWithoutPermanentFailure"))
     if not recs:
         log("C15: no function-level seam available: daemon-level histories only")
         ck.cov["traces_validated_against_impl"] = len(runs)
